@@ -17,10 +17,13 @@ from . import c12
 T = 6000000000
 INITIAL_BP = ['!', 'wl_surface']
 COMMANDS = ['resume', 'quit', 'help', 'list', 'breakpoint wl_surface', 'breakpoint !', 'connection A', 'connection all',
-            'filter wl_pointer', 'breakpoint ! .motion', 'r', 'q', 'connection B', 'connection Z', 'breakpoint [', 'filter *']
+            'filter wl_pointer', 'breakpoint ! .motion', 'r', 'q', 'connection B', 'connection Z', 'breakpoint [', 'filter *',
+            'breakpoint (wl_seat)', 'breakpoint ("wl_seat")']
 CMD_REF = {'breakpoint wl_surface': ('wl_surface', ['wl_surface'], []), 'breakpoint !': ('!', 'NONE', None),
-           'breakpoint ! .motion': ('! .motion', [], ['.motion'])}
-MSG_KINDS = ['commit', 'motion', 'enter', 'name']
+           'breakpoint ! .motion': ('! .motion', [], ['.motion']),
+           # two patterns that print alike (string arguments are printed without quotes) but mean different things
+           'breakpoint (wl_seat)': ('(wl_seat)', ['(wl_seat)'], []), 'breakpoint ("wl_seat")': ('("wl_seat")', ['("wl_seat")'], [])}
+MSG_KINDS = ['commit', 'motion', 'enter', 'name', 'orphan']
 
 
 def _u(conn, sent, iface, oid, name, args):
@@ -44,7 +47,9 @@ def message_for(conn, kind):
         return _u(conn, False, 'wl_pointer', 6, 'motion', [['int', 1], ['fixed', 256], ['fixed', 512]])
     if kind == 'enter':
         return _u(conn, False, 'wl_pointer', 6, 'enter', [['int', 7], ['obj', 'wl_surface', 4], ['fixed', 0], ['fixed', 0]])
-    return _u(conn, False, 'wl_seat', 5, 'name', [['str', 'seat0']])
+    if kind == 'orphan':      # an event on a surface GDB never saw being created (attached late): still a wl_surface message
+        return _u(conn, False, 'wl_surface', 99, 'enter', [['nil']])
+    return _u(conn, False, 'wl_seat', 5, 'name', [['str', 'wl_seat']])
 
 
 def bind_closure(m):
@@ -112,7 +117,8 @@ def run_hist(init_bp, hist, check_from=0):
                 if bool(ret) != want:
                     V.append(Violation('halt.missed' if want else 'halt.spurious', case, d))
                 elif want and (len(stopped) != 1 or stopped[0].get('name') != v.name or
-                               outparse.label(stopped[0]['obj']).split('@')[1] != '%d%s' % (v.obj[1], ms.letters.word(v.obj[2]))):
+                               (v.obj[2] is not None and
+                                outparse.label(stopped[0]['obj']).split('@')[1] != '%d%s' % (v.obj[1], ms.letters.word(v.obj[2])))):
                     V.append(Violation('halt.notice', case, dict(d, out=new_out)))
                 elif not want and stopped:
                     V.append(Violation('halt.notice_without_halt', case, dict(d, out=new_out)))
@@ -123,6 +129,8 @@ def run_hist(init_bp, hist, check_from=0):
             h = deliver(-1, check_from == 0)
             # a halt during the prelude: the user continues
             ref.halted = False
+        # the explored history starts at the GDB prompt (the user interrupted the program), so commands are possible
+        ref.halted = True
         for n, e in enumerate(hist):
             checked = n >= check_from
             if e[0] == 'msg':
